@@ -9,6 +9,7 @@ import tempfile
 import time
 
 CVC5 = "/usr/bin/cvc5"
+LONG_CAP = 48          # at most this many queries get the long (tens of seconds) solver attempts in one check run
 
 
 Z3 = "z3-new"          # CLI of the z3-solver wheel (same 5.1.0 as the python API that builds the queries)
@@ -43,22 +44,24 @@ def _z3_worker(job):
     another) and to the arithmetic back end (a query the default simplex-based solver loops on for > 20 s takes 0.7 s with
     `smt.arith.solver=2`), so a small fixed portfolio is tried: default configuration briefly, the other arithmetic solver
     briefly, then two other seeds with half the budget each.  Only a definite answer ends the portfolio."""
-    key, smt2, timeout_ms = job
+    key, smt2, timeout_ms = job[:3]
+    phase = job[3] if len(job) > 3 else 0          # 0: whole portfolio; 1: quick attempts only; 2: the long attempts only
     t0 = time.time()
     with tempfile.NamedTemporaryFile("w", suffix=".smt2", delete=False) as fh:
         fh.write(smt2)
         path = fh.name
     res, extra = "unknown", ""
     try:
-        portfolio = [([], min(timeout_ms, 3000))]
-        if timeout_ms > 3000:
-            portfolio += [(["smt.arith.solver=2"], 4000), (["smt.random_seed=3"], timeout_ms // 2), (["smt.random_seed=11"], timeout_ms // 2)]
+        first = [([], min(timeout_ms, 3000))]
+        rest = [(["smt.arith.solver=2"], 4000), (["smt.random_seed=3"], timeout_ms // 2), (["smt.random_seed=11"], timeout_ms // 2)] \
+            if timeout_ms > 3000 else []
+        portfolio = first + rest if phase == 0 else (first if phase == 1 else rest)
         early = None
         for n_try, (opts, tmo) in enumerate(portfolio):
             res, extra = _z3_once(path, tmo, opts)
             if res in ("sat", "unsat"):
                 break
-            if n_try == 0 and len(portfolio) > 1 and os.path.exists(CVC5):
+            if n_try == 0 and phase != 2 and timeout_ms > 3000 and os.path.exists(CVC5):
                 # the other solver, briefly, before more z3 configurations are tried: queries z3 loops on for minutes are
                 # often a matter of milliseconds for cvc5 (and the other way round)
                 _, cres, csecs, _ = _cvc5_worker((key, smt2, 5000))
@@ -148,19 +151,35 @@ def discharge_texts(items, timeout_ms=20000, jobs=None, use_cvc5=True, cvc5_all=
     results = {k: dict(z3="unsat", z3_s=0.0, z3_extra="", literal=True) for k in order if uniq[k].get("literal")}
     order_all = order
     order = [k for k in order if k not in results]
-    work = [(k, uniq[k]["smt2"], tmo(k)) for k in order]
-    if work:
+    def run(work):
+        if not work:
+            return
         with mp.get_context("fork").Pool(min(jobs, len(work))) as pool:
             for ret in pool.imap_unordered(_z3_worker, work):
                 key, res, secs, extra = ret[:4]
-                results[key] = dict(z3=res, z3_s=secs, z3_extra=extra)
+                prev = results.get(key, {})
+                results[key] = dict(z3=res, z3_s=round(secs + prev.get("z3_s", 0.0), 3), z3_extra=extra)
                 if len(ret) > 4:                      # decided by the early cvc5 attempt inside the portfolio
                     results[key].update(cvc5=ret[4][0], cvc5_s=ret[4][1], cvc5_extra="early")
+
+    # phase 1: every query, briefly (default z3 3 s, then cvc5 5 s): on a tree where the properties hold this decides all but a
+    # handful.  phase 2: the long attempts (other arithmetic back end, two more seeds, cvc5 with the full budget) for what is
+    # left - but for at most LONG_CAP queries: a change that breaks a function leaves hundreds of its obligations open, and giving
+    # each of them a minute would make the check run for an hour without changing its verdict (they are reported as not
+    # discharged either way; which ones were not retried is recorded).
+    run([(k, uniq[k]["smt2"], tmo(k), 1) for k in order])
+    open_keys = [k for k in order if results[k]["z3"] not in ("sat", "unsat") and results[k].get("cvc5") != "unsat"
+                 and uniq[k]["kind"] != "vacuity" and uniq[k]["oid"] not in brief]
+    retry = sorted(open_keys)[:LONG_CAP]
+    skipped = set(open_keys) - set(retry)
+    for k in skipped:
+        results[k]["z3_extra"] = (results[k].get("z3_extra") or "") + " | long attempts skipped: more than %d queries open after the quick phase" % LONG_CAP
+    run([(k, uniq[k]["smt2"], tmo(k), 2) for k in retry])
     if use_cvc5:
         # second opinion on everything (thorough tier): a short budget is enough to expose a contradiction
         again = [(k, uniq[k]["smt2"], min(timeout_ms, 10000) if cvc5_all and results[k]["z3"] == "unsat" else timeout_ms) for k in order
                  if uniq[k]["kind"] != "vacuity" and uniq[k]["oid"] not in brief
-                 and (cvc5_all or results[k]["z3"] in ("unknown", "error")) and results[k].get("cvc5") != "unsat"]
+                 and (cvc5_all or results[k]["z3"] in ("unknown", "error")) and results[k].get("cvc5") != "unsat" and k not in skipped]
         if again:
             with mp.get_context("fork").Pool(min(jobs, len(again))) as pool:
                 for key, res, secs, extra in pool.imap_unordered(_cvc5_worker, again):
